@@ -239,3 +239,51 @@ class ValidatorPurity(Inventory):
                                     if n.func.attr == "parse" and not (n.args and isinstance(n.args[0], ast.Constant) and n.args[0].value is False):
                                         mism.append(f"{rel}:{cls.name}.{fnode.name} line {n.lineno}: condition.parse() without postprocess=False rewrites / resolves the tree")
         return {"n_sites": n_methods, "methods_scanned": n_methods, "calls_on_rule_derived_values": sorted(set(sites)), "mismatches": mism}
+
+
+@register
+class SpecificLogsourceValidatorState(Contract):
+    """SpecificInsteadOfGenericLogsourceValidator.validate: whatever rule was validated before (the validator object is reused for every
+    rule and keeps the table of the last mapped log source), a rule whose log source is in no table yields no issue, and a rule whose log
+    source is mapped is checked against ITS table"""
+    id = "C19.SpecificInsteadOfGenericLogsourceValidator.validate"
+    target = "sigma.validators.core.logsources:SpecificInsteadOfGenericLogsourceValidator.validate"
+    props = ("C19",)
+    cases = ("sysmon", "security", "unmapped", "correlation")
+    assumed = ["SigmaDetectionValidator.validate (the walk over the detections and their items) is abstract: it reports with the table the object holds when it is called",
+               "state left by an earlier rule: the security table (for a sysmon / unmapped rule) or the sysmon table"]
+
+    def setup(self, E):
+        def s_walk(I, so, a, k):
+            so.ghost["walked_with"] = (so.fields.get("logsource"), so.fields.get("eventid_mappings"))
+            return [SObj("Issue", {})]
+        E.summaries["sigma.validators.base:SigmaDetectionValidator.validate"] = s_walk
+
+    def args(self, I, case):
+        idx = I.E.index
+        L = idx.lookup("sigma.rule.logsource:SigmaLogSource")
+        mk = lambda c, p, s: SObj(L, {"category": c, "product": p, "service": s, "definition": None, "source": None, "custom_attributes": None})
+        ls = {"sysmon": mk(None, "windows", "sysmon"), "security": mk("process_creation", "windows", "security"), "unmapped": mk(None, "windows", "system"), "correlation": None}[case]
+        rule = SObj(idx.lookup("sigma.correlations:SigmaCorrelationRule"), {}, lazy=True) if case == "correlation" else SObj(idx.lookup("sigma.rule.rule:SigmaRule"), {"logsource": ls}, lazy=True)
+        stale_ls = mk(None, "windows", "security" if case != "security" else "sysmon")
+        stale_map = {4688: "process_creation"} if case != "security" else {1: "process_creation"}
+        me = SObj(idx.lookup("sigma.validators.core.logsources:SpecificInsteadOfGenericLogsourceValidator"), {"logsource": stale_ls, "eventid_mappings": stale_map, "disallowed_logsource_event_ids": list(stale_map)}, lazy=True)
+        return {"self": me, "args": [rule], "case": case, "stale": stale_map}
+
+    def post(self, I, inp, r):
+        c, case, me = I.ctx, inp["case"], inp["self"]
+        r = I.force(r) if not isinstance(r, list) else r
+        if case in ("unmapped", "correlation"):
+            c.require(isinstance(r, list) and r == [] and "walked_with" not in me.ghost, "a rule whose log source has no table (or a correlation rule) yields no issue, whatever was validated before")
+        else:
+            ok = "walked_with" in me.ghost
+            c.require(ok, "a rule with a mapped log source is checked")
+            if ok:
+                lsrc, table = me.ghost["walked_with"]
+                want = {"sysmon": (1, "process_creation"), "security": (4688, "process_creation")}[case]
+                tbl = I.force(table) if not isinstance(table, dict) else table
+                c.require(isinstance(tbl, dict) and tbl is not inp["stale"] and tbl.get(want[0]) == want[1] and isinstance(lsrc, SObj) and lsrc.fields.get("service") == case,
+                          "the table and log source used are those of this rule's log source, not those of the previous rule")
+
+    def frame_ok(self, I, inp, obj, name):
+        return obj is inp["self"] and name in ("logsource", "eventid_mappings", "disallowed_logsource_event_ids", "rule")
